@@ -9,6 +9,7 @@ import Driver.C09
 import Driver.Re
 import Driver.C13
 import Driver.C20
+import Driver.C04
 namespace Driver
 
 def dispatch (op : String) : Option Handler :=
@@ -35,6 +36,9 @@ def dispatch (op : String) : Option Handler :=
   | "join" => some C13.join
   | "pctidx" => some Verbs.pctidx
   | "fanout" => some C20.fanout
+  | "chainb" => some C04.chainb
+  | "thenpipe" => some C04.thenpipe
+  | "ctxs" => some C04.ctxs
   | "re" => some Re.re
   | "bystand" => some C03.bystand
   | "pair" => some Verbs.pair
